@@ -35,8 +35,22 @@ class _Crash(_Lease):
 
         def on_op(I, what, key):
             st = I.disk[key]
+            if what == "write":
+                at = I.ghost.get("last_write_at")
+                at = z3.simplify(at) if z3.is_expr(at) else at
+                is_count = (z3.is_int_value(at) and at.as_long() == 8) if z3.is_expr(at) else at == 8
+                what = "count-write" if is_count else "record-write"
             me._snaps.append((what, st.content, Z(st.length)))
         return {"on_file_op": on_op}
+
+    @staticmethod
+    def tags(kinds):
+        """crash-after-<kind>-<i-th operation of that kind>: names a crash window by what was written last, not by a bare index"""
+        seen, out = {}, []
+        for k in kinds:
+            seen[k] = seen.get(k, 0) + 1
+            out.append("crash-after-%s-%d" % (k, seen[k]))
+        return out
 
     def run(self, I, a):
         self._snaps = []
@@ -82,6 +96,7 @@ class _Crash(_Lease):
             for k in range(1, 6):
                 fresh()
                 count = [0]
+                kinds = []
                 real_open = builtins.open
 
                 class F(object):
@@ -97,21 +112,23 @@ class _Crash(_Lease):
                     def __exit__(s, *x):
                         s.f.close()
 
-                    def _hit(s):
+                    def _hit(s, kind):
                         s.f.flush()
                         count[0] += 1
+                        kinds.append(kind)
                         if count[0] == k:
                             s.f.close()
                             raise Crash()
 
                     def write(s, b):
+                        at = s.f.tell()
                         r = s.f.write(b)
-                        s._hit()
+                        s._hit("count-write" if at == 8 else "record-write")
                         return r
 
                     def truncate(s, *x):
                         r = s.f.truncate(*x)
-                        s._hit()
+                        s._hit("truncate")
                         return r
                 M.open = lambda path, mode="r": F(real_open(path, mode))
                 crashed = False
@@ -127,7 +144,7 @@ class _Crash(_Lease):
                 if not crashed:
                     break
                 if not os.path.exists(p):
-                    results.append((k, (True, True, True), []))
+                    results.append((self.tags(kinds)[-1], (True, True, True), []))
                     continue
                 data_same, now = (False, False, False), []
                 try:
@@ -138,7 +155,7 @@ class _Crash(_Lease):
                     now = [lease_key(l) for l in sf.get_leases()]
                 except Exception as e:       # noqa
                     pass
-                results.append((k, data_same, [i for i in range(a["n"]) if leases0[i] not in now]))
+                results.append((self.tags(kinds)[-1], data_same, [i for i in range(a["n"]) if leases0[i] not in now]))
         out = Outcome("return", None) if outcome is None else Outcome("raise", exc=outcome, exc_cls=type(outcome))
         out.post = {"native_crash": results, "raw0": raw0}
         return out
@@ -146,8 +163,7 @@ class _Crash(_Lease):
     def native_ensures(self, a, out):
         g = []
         c = None
-        for (k, data_same, missing) in out.post["native_crash"]:
-            tag = "crash-after-op-%d" % k
+        for (tag, data_same, missing) in out.post["native_crash"]:
             g.append(("%s:data-region-does-not-grow-after-restart" % tag, z3.BoolVal(data_same[0])))
             g.append(("%s:data-region-does-not-shrink-after-restart" % tag, z3.BoolVal(data_same[1])))
             g.append(("%s:data-bytes-after-restart-are-unchanged" % tag, z3.BoolVal(data_same[2])))
@@ -168,9 +184,10 @@ class _Crash(_Lease):
         c, n = as_arr(out.post["file0"])
         g = []
         cnt0, end0 = recovered_view(c, n)
+        tags = self.tags([w for (w, ck, nk) in out.post["snaps"]])
         for k, (what, ck, nk) in enumerate(out.post["snaps"]):
             cnt, end = recovered_view(ck, nk)
-            tag = "crash-after-op-%d" % (k + 1)
+            tag = tags[k]
             g.append(("%s:data-region-does-not-grow-after-restart" % tag, end <= end0))
             g.append(("%s:data-region-does-not-shrink-after-restart" % tag, end >= end0))
             g.append(("%s:data-bytes-after-restart-are-unchanged" % tag, forall_range(12, z3.If(end < end0, end, end0), lambda j: z3.Select(ck, j) == z3.Select(c, j))))
